@@ -342,6 +342,7 @@ def run(ctx, config='rel-all'):
             ctx.anchor_missing('O9', 'Bump::' + name)
         return bs[0] if bs else None
     n9 = 0
+    FAMILY = ('with_capacity', 'try_with_capacity', 'with_min_align_and_capacity', 'try_with_min_align_and_capacity')
     for name, callee, arg in (('new', '::with_capacity', C(0)), ('try_new', '::try_with_capacity', C(0)), ('with_capacity', '::try_with_capacity', ('param', 1)),
                               ('try_with_capacity', '::try_with_min_align_and_capacity', ('param', 1)), ('with_min_align_and_capacity', '::try_with_min_align_and_capacity', ('param', 1))):
         b = bump_fn(name)
@@ -349,6 +350,9 @@ def run(ctx, config='rel-all'):
             continue
         J, r = arena.run_fn(ctx, b['id'], config)
         cs = [e for e in r.events if e.kind == 'call' and len(e.stack) == 1 and (e.callee or '').endswith(callee)]
+        if not cs:
+            # any other member of the capacity-constructor family is as good: they all end in try_with_min_align_and_capacity
+            cs = [e for e in r.events if e.kind == 'call' and len(e.stack) == 1 and 'Bump::<' in (e.callee or '') and (e.callee or '').split('::')[-1] in FAMILY and (e.callee or '').split('::')[-1] != name]
         n9 += 1
         if len(cs) == 1 and cs[0].args == [arg]:
             ctx.ok('O9', 'Bump::%s forwards capacity %s to %s' % (name, show(arg), callee[2:]), 'argument identity')
